@@ -97,6 +97,7 @@ func addStats(m map[string]int64, st vsim.Stats) {
 	m["task_stalls"] += st.Stalls
 	m["idle_clock_jumps"] += st.ClockJumps
 	m["overlapping_switches"] += st.OverlapSwitches
+	m["sync_point_stalls"] += st.SyncStalls
 }
 
 var stopNames = map[int]string{0: "completed", 1: "deadlock", 2: "overrun", 3: "op_step_limit", 4: "op_vtime_limit", 5: "world_vtime_limit", 6: "requested"}
